@@ -83,6 +83,7 @@ class Decls:
     def __init__(self, root):
         self.root = root
         self.structs = {}   # name -> [field names]  (tuple structs: ['0','1',..])
+        self.struct_field_types = {}   # name -> [field type text] (same order)
         self.enums = {}     # name -> [(variant name, [field names])]
         self.traits = set()
         self.trait_generics = {}
@@ -122,18 +123,25 @@ class Decls:
                 continue
             if src[j] == '(':
                 k = find_matching(src, j)
-                n = len(split_top(src[j + 1:k]))
+                parts = split_top(src[j + 1:k])
+                n = len(parts)
+                if name not in self.structs:
+                    self.struct_field_types[name] = [re.sub(r'^\s*(#\[[^\]]*\]\s*)*(pub(\([a-z]+\))?\s+)?', '', x).strip() for x in parts]
                 self.structs.setdefault(name, [str(x) for x in range(n)])
                 continue
             # could be a where clause before '{'
             k = find_matching(src, j)
             body = src[j + 1:k]
             fields = []
+            ftypes = []
             for f in split_top(body):
                 f = re.sub(r'#\[[^\]]*\]', '', f).strip()
                 mm = re.match(r'(pub(\([a-z]+\))?\s+)?(\w+)\s*:', f)
                 if mm:
                     fields.append(mm.group(3))
+                    ftypes.append(' '.join(f[mm.end():].split()))
+            if name not in self.structs:
+                self.struct_field_types[name] = ftypes
             self.structs.setdefault(name, fields)
         for m in re.finditer(r'\b(pub(\([a-z]+\))?\s+)?enum\s+(\w+)', src):
             name = m.group(3)
